@@ -80,6 +80,9 @@ type Case struct {
 	Note    string       `json:"note,omitempty"`
 	// Late: the case presumes the first n late-registered harness lints (replays register them too)
 	Late int `json:"late,omitempty"`
+	// ConfigFirst: the configuration is installed on the global registry *before* the filters are applied - the
+	// filtered registries have to inherit it (otherwise it is set on the last filter's result)
+	ConfigFirst bool `json:"config_first,omitempty"`
 }
 
 // Run is the observed behaviour plus the reference expectation.
@@ -124,6 +127,15 @@ func BuildRegistry(c Case) (reg lint.Registry, cfg lint.Configuration, restore f
 	old := g.GetConfiguration()
 	restore = func() { g.SetConfiguration(old) }
 	reg = g
+	var first *lint.Configuration
+	if c.Config != nil && c.ConfigFirst && len(c.Filters) > 0 {
+		cf, e := lint.NewConfigFromString(*c.Config)
+		if e != nil {
+			return nil, cfg, restore, fmt.Errorf("config: %v", e)
+		}
+		g.SetConfiguration(cf)
+		first = &cf
+	}
 	for _, f := range c.Filters {
 		o, e := f.Options()
 		if e != nil {
@@ -136,6 +148,10 @@ func BuildRegistry(c Case) (reg lint.Registry, cfg lint.Configuration, restore f
 		reg = r
 	}
 	cfg = reg.GetConfiguration()
+	if first != nil {
+		// what the filtered registry must be working with, whatever it says it holds
+		return reg, *first, restore, nil
+	}
 	if c.Config != nil {
 		cf, e := lint.NewConfigFromString(*c.Config)
 		if e != nil {
